@@ -116,7 +116,8 @@ class Registry:
         self.aliases = {}    # annotation text -> type string
         self.unbounded = set()   # Real-valued fields that may hold Decimal('Infinity')
         self.sig_cids = {}
-        self.shared_fields = set()   # container-typed fields exempt from the ownership discipline
+        self.shared_fields = set()
+        self.heap_key = {}          # element class -> field used as the ordering key of heapq lists of that class   # container-typed fields exempt from the ownership discipline
 
     def klass(self, name, qualname=None, **kw):
         # field types stay strings until first use (forward references between classes are allowed)
